@@ -278,7 +278,11 @@ def _run_ip(plan, ch, ctx, kind, r, ident, pairing_data, ios_ltsk, ios_id):
         conn = p.connection
         nonlocal rec_m2
         if kind == "replay_m2":
-            await conn._connect_once()
+            try:
+                await conn._connect_once()
+            except Exception as e:  # noqa: BLE001
+                ctx.violate("honest-exchange-failed", type(e).__name__, f"pair-verify with the genuine, unmodified accessory failed on IP: {e!r}")
+                return
             rec_m2 = [list(x) for x in w.acc.sessions[-1].verify.sent_m2]
             await conn.close()
             conn.closing = False
